@@ -45,6 +45,11 @@ def clf_zoo():
             estimators=[("a", ParzenWindowClassifier(metric_dict={"gamma": 0.7}, **{q: v for q, v in k.items() if q != "cost_matrix"})),
                         ("b", ParzenWindowClassifier(metric_dict={"gamma": 0.7}, **{q: v for q, v in k.items() if q != "cost_matrix"}))],
             voting="soft", **k), self_proba=True, multi=True, c12=False, only=("C11", "C13")),
+        # the default voting scheme: hard votes of the members (no own probability estimate: not uniform without labels)
+        "AnnotEnsemble-hard": dict(mk=lambda **k: AnnotatorEnsembleClassifier(
+            estimators=[("a", ParzenWindowClassifier(metric_dict={"gamma": 0.7}, **{q: v for q, v in k.items() if q != "cost_matrix"})),
+                        ("b", ParzenWindowClassifier(metric_dict={"gamma": 0.7}, **{q: v for q, v in k.items() if q != "cost_matrix"}))],
+            voting="hard", **k), self_proba=False, multi=True, c12=False, only=("C11", "C13"), random_proba=True),
     }
     return Z
 
@@ -234,6 +239,10 @@ def run_c11(case, fail):
     costs = np.asarray(P) @ Cs
     pos = np.array([sorted(classes).index(v) for v in ypl])
     chosen = costs[np.arange(len(pos)), pos]
+    if z.get("random_proba"):
+        # hard votes of members that break ties at random: two calls of predict_proba need not agree, so the decision taken inside predict
+        # cannot be compared with probabilities obtained by a separate call (simplex and membership in classes_ are judged above)
+        return
     uses_own_predict = case["model"].startswith("Sk-") and cm is None
     fallback = getattr(c, "is_fitted_", True) is False
     if not uses_own_predict and not np.all(chosen <= costs.min(axis=1) + 1e-9):
